@@ -2,7 +2,7 @@
    PARTIAL (see C01.v for the reason): decision rules + facts about how the
    recorded dependency set is maintained. *)
 From Coq Require Import ZArith List.
-From Redo Require Import Base.Bytes Build.Model Build.LocalProofs Build.FailProofs Build.CleanProofs Build.CleanDb Build.Settle.
+From Redo Require Import Base.Bytes Build.Model Build.LocalProofs Build.FailProofs Build.Protect Build.CleanProofs Build.CleanDb Build.Settle Build.SettleJob.
 
 Theorem C02_never_built_runs : forall fuel runid cyc w c f r mx seen,
   existsb (Nat.eqb f) seen = false ->
@@ -212,3 +212,92 @@ Example C02_clean_sound_example :
   /\ match is_dirty 40 R nil w ChkDb 2%nat (load R (dbs w) 2%nat) R nil with
      | Ret (VClean, _, _, _) => True | _ => False end.
 Proof. vm_compute. repeat split. Qed.
+
+(* ---- THE WHOLE-BUILD INVARIANT (Build/SettleJob.v), for projects of plain
+   scripts.  Scope: every script asks for its dependencies with redo-ifchange
+   and nothing else (no redo-stamp, redo-ifcreate, redo-always, "|| true"); the
+   database holds no checksum and no hand-edited generated file is pending; a
+   rank on names decreases along every declared and every recorded dependency;
+   the names of .do files (WATCHED names) are never asked for as targets.
+   Then: every `redo-ifchange ts`, at any nesting depth, keeps the run invariant
+   of Settle.v through everything a job does -- the check, the flagged old
+   declarations (zap_deps1), find_do_file and its redo-ifcreate edges, the
+   nested redo-ifchange of the script (which records its edges BEFORE it builds),
+   $3 / stdout / a direct write, record_new_state on success and on failure --
+   and WHEN IT EXITS 0 EVERY TARGET IN ts IS SETTLED WITH ITS WHOLE RECORDED
+   CLOSURE (build_rec_spec, by induction on the nesting depth; start_spec,
+   ss_rest_spec, ss_run_spec, record_spec, script_step, find_do_spec ...).  The
+   settled rows are a quiet set, so by C02_repeated_builds_run_nothing the next
+   command, and every later one, runs nothing.  Premises are boolean (evaluated
+   below before a first build and before a rebuild after a source edit) except
+   the two facts that tie [watched] to the finite list L of possible targets. *)
+Theorem C02_successful_build_settles : forall rk watched R (L : list name) k ts w w' evs,
+  R = (maxrun (dbs w) + 1)%Z -> (0 < R)%Z ->
+  wfw_b R rk (fst (new_run w)) = true -> fresh_b R (fst (new_run w)) = true ->
+  xr_b (fst (new_run w)) = true -> cre_b watched (fst (new_run w)) = true ->
+  (forall n, watched n = true -> reserved n = false) ->
+  (forall t, watched t = false -> reserved t = false -> In t L) ->
+  forallb (proj_t_b rk watched (fst (new_run w))) L = true ->
+  forallb (fun t => negb (watched t) && negb (reserved t)) ts = true ->
+  exec (CIfChange k ts) w = (w', OutBuild evs 0%Z) ->
+  (forall t, In t ts -> exists g, find_row (rows (dbs w')) t 1 = Some g /\ ok R w' nil g) /\
+  QUIET R (rkf rk w') (ok R w' nil) w'.
+Proof. exact ifchange_settles_b. Qed.
+Check C02_successful_build_settles : forall rk watched R (L : list name) k ts w w' evs,
+  R = (maxrun (dbs w) + 1)%Z -> (0 < R)%Z ->
+  wfw_b R rk (fst (new_run w)) = true -> fresh_b R (fst (new_run w)) = true ->
+  xr_b (fst (new_run w)) = true -> cre_b watched (fst (new_run w)) = true ->
+  (forall n, watched n = true -> reserved n = false) ->
+  (forall t, watched t = false -> reserved t = false -> In t L) ->
+  forallb (proj_t_b rk watched (fst (new_run w))) L = true ->
+  forallb (fun t => negb (watched t) && negb (reserved t)) ts = true ->
+  exec (CIfChange k ts) w = (w', OutBuild evs 0%Z) ->
+  (forall t, In t ts -> exists g, find_row (rows (dbs w')) t 1 = Some g /\ ok R w' nil g) /\
+  QUIET R (rkf rk w') (ok R w' nil) w'.
+Print Assumptions C02_successful_build_settles.
+
+(* the invariant itself, for every command at every nesting depth *)
+Theorem C02_every_command_keeps_the_invariant : forall R, (0 < R)%Z -> forall rk watched fuel,
+  rec_spec R rk watched (build fuel).
+Proof. exact build_rec_spec. Qed.
+Print Assumptions C02_every_command_keeps_the_invariant.
+
+(* non-vacuity: T <- {m, s}, m <- s, plain scripts that print their inputs.  The
+   premises hold before the first build (empty database) and again after the
+   source s has been edited; both builds exit 0 and run T.do and m.do *)
+Definition ex_T : name := (84 :: nil)%N.
+Definition ex_m : name := (109 :: nil)%N.
+Definition ex_s : name := (115 :: nil)%N.
+Definition ex_L : list name := ex_T :: ex_m :: ex_s :: nil.
+Definition ex_watched (n : name) : bool := negb (existsb (bytes_eqb n) ex_L) && negb (reserved n).
+Definition ex_rk (n : name) : nat :=
+  if bytes_eqb n ex_T then 3%nat else if bytes_eqb n ex_m then 2%nat else if bytes_eqb n ex_s then 1%nat else 0%nat.
+
+Lemma ex_watched_unreserved : forall n, ex_watched n = true -> reserved n = false.
+Proof. intros n H. unfold ex_watched in H. apply Bool.andb_true_iff in H as [_ H]. now apply Bool.negb_true_iff in H. Qed.
+Lemma ex_targets_listed : forall t, ex_watched t = false -> reserved t = false -> In t ex_L.
+Proof.
+  intros t H Hr. unfold ex_watched in H. rewrite Hr in H. cbn [negb] in H. rewrite Bool.andb_true_r in H.
+  apply Bool.negb_false_iff in H. apply existsb_exists in H as (x & Hx & E).
+  apply BytesProofs.bytes_eqb_eq in E. now subst x.
+Qed.
+
+Example C02_whole_build_example :
+  let mk deps p := {| s_deps := deps; s_ifcreate := nil; s_always := false; s_stamp := false;
+                      s_out := OStdout; s_payload := p; s_cat := true; s_exit := 0%Z; s_tol := false |} in
+  let h := SWrite ex_s (1%N :: nil) :: SWriteDo (ex_T ++ b_do) (mk (ex_m :: ex_s :: nil) 10%N)
+           :: SWriteDo (ex_m ++ b_do) (mk (ex_s :: nil) 20%N) :: nil in
+  let w_a := fst (last (run_history h (init_world 0)) (init_world 0, None)) in
+  let pre := fun w : world =>
+    let R := (maxrun (dbs w) + 1)%Z in let w1 := fst (new_run w) in
+    (Z.ltb 0 R && wfw_b R ex_rk w1 && fresh_b R w1 && xr_b w1 && cre_b ex_watched w1
+     && forallb (proj_t_b ex_rk ex_watched w1) ex_L
+     && forallb (fun t => negb (ex_watched t) && negb (reserved t)) (ex_T :: nil))%bool in
+  let runs := fun w => match snd (exec (CIfChange false (ex_T :: nil)) w) with
+                       | OutBuild evs rc => Some (rc, length (filter (fun e => match e with EvRun _ _ _ _ => true | _ => false end) evs))
+                       | _ => None end in
+  let w_b := fst (exec (CIfChange false (ex_T :: nil)) w_a) in
+  let w_c := write_file w_b ex_s (2%N :: nil) None in
+  (pre w_a, runs w_a, pre w_c, runs w_c, runs (fst (exec (CIfChange false (ex_T :: nil)) w_c)))
+  = (true, Some (0%Z, 2%nat), true, Some (0%Z, 2%nat), Some (0%Z, 0%nat)).
+Proof. vm_compute. reflexivity. Qed.
